@@ -116,6 +116,7 @@ def run(ids, checks, tier):
         if os.path.exists(rp):
             old = json.load(open(rp))
         old.setdefault(tier, {}).update(res)
+        old["repo_head"] = sh(["git", "-C", "/repo", "rev-parse", "--short", "HEAD"]).stdout.strip()
         old["verif_commit"] = sh(["git", "-C", VERIF, "rev-parse", "--short", "HEAD"]).stdout.strip()
         json.dump(old, open(rp, "w"), indent=1)
         # evidence files are rewritten by check runs on the mutated tree: they are restored by the caller re-running checks
